@@ -573,6 +573,10 @@ func genC06(r *rng, tier string, emit func(string)) {
 			}
 		}
 	}
+	// one Write of 200 KiB in each direction (the record-size schedule grows towards 16 KiB; nothing may exceed it)
+	for _, cfg := range []string{"gm gm e013 e013", "gm gm e053 e053", "tls tls12 9c 9c", "tls tls12 c02f c02f", "tls tls10 2f 2f", "auto gm e053 -"} {
+		emit(fmt.Sprintf("hs %s 0 0 0 s 0 r %x:204800:204800:300000", cfg, r.u64()))
+	}
 	// suite lists and preference
 	n := 120
 	if tier == "thorough" {
